@@ -43,6 +43,8 @@ func c02(c *Ctx) (*report.Result, error) {
 	}
 	res.Explanation = "SSA of proxy.NewClusterConnection (which shard count the RoutingParameters closure selects for the server that forwards to each cluster) and of the chain buildProxyServer -> NewAdminServiceProxyServer -> StreamWorkflowReplicationMessages -> handleStream -> streamRouting -> proxyStreamReceiver (the count and the reverse client reach the receiver unchanged), of recvReplicationMessages (arguments of WorkflowIDToHistoryShard, the retry loop's bookkeeping) and of proxyStreamSender.sendReplicationMessages (who writes nextProxyTaskID, by how much, under which lock, followed by which ring append; which values the id fields and the exclusive high watermark receive). Necessary shapes of 'each task once, to the owning shard, with strictly increasing ids and a covering watermark'; exactly-once, ordering and watermark monotonicity under interleavings of several sources are not decided. Observation (no rule): tasks without RawTaskInfo / namespace id / workflow id are dropped from the grouping without an error."
 	res.Assumptions = []string{"servercommon.WorkflowIDToHistoryShard is Temporal's shard hash"}
+	res.RuleDoc["O2.7"] = "no swallowed error in the files the mechanism lives in: no function returns a nil error on a path on which an error obtained from a call is known to be non-nil (io.EOF from a stream Recv, the normal end of a receive loop, is the one accepted idiom)"
+	checkNoSwallowedErrors(c, res, "O2.7", []string{"proxy/proxy_streams.go", "proxy/shard_manager.go"})
 	return res, nil
 }
 
@@ -788,6 +790,8 @@ func c04(c *Ctx) (*report.Result, error) {
 	}
 	res.Explanation = "SSA of proxy.streamRouting (identity of the latch handed to both Run calls through the goroutine closures' captured cell, AfterFunc wiring), of every worker function of sender and receiver (deferred Shutdown covering all exits), a construction-site inventory of proxyStreamSender / proxyStreamReceiver and a who-may-write inventory of the per-incarnation fields (id ring, channels, per-target ack map, lastSentMin). These are the mechanisms that keep a broken stream from leaving acknowledged-but-unconfirmed state behind; the enumeration of break points x reconnection orders itself is a fault-sequence statement and is not decided."
 	res.Assumptions = []string{"the source cluster resends from its acknowledged level after a reconnect (Temporal behaviour)"}
+	res.RuleDoc["O4.10"] = "no swallowed error in the files the mechanism lives in: no function returns a nil error on a path on which an error obtained from a call is known to be non-nil (io.EOF from a stream Recv, the normal end of a receive loop, is the one accepted idiom)"
+	checkNoSwallowedErrors(c, res, "O4.10", []string{"proxy/proxy_streams.go", "proxy/admin_stream_transfer.go", "proxy/shard_manager.go"})
 	return res, nil
 }
 
